@@ -300,6 +300,42 @@ def _cprint(e) -> str:
     return float.__repr__(e) if isinstance(e, WNum) else str(e)
 
 
+class WMatrix:
+    """stand-in for sympy.Matrix over witness expressions: a column of expressions, its Jacobian with respect to a list of symbols, and entry
+    access -- an entry of the Jacobian is an expression over the same symbols as the differentiated one (what the substitution lists must cover)"""
+
+    def __init__(self, rows, cols=None):
+        self.rows = list(rows)
+        self.cols = None if cols is None else list(cols)
+
+    def jacobian(self, symbols):
+        return WMatrix(self.rows, list(symbols))
+
+    @property
+    def shape(self):
+        return (len(self.rows), 1 if self.cols is None else len(self.cols))
+
+    def __len__(self):
+        return len(self.rows) * (1 if self.cols is None else len(self.cols))
+
+    def __iter__(self):
+        if self.cols is None:
+            return iter(self.rows)
+        return iter([r.diff(c) for r in self.rows for c in self.cols])
+
+    def __getitem__(self, key):
+        if self.cols is None:
+            if isinstance(key, tuple):
+                return self.rows[key[0]]
+            return self.rows[key]
+        if isinstance(key, tuple) and len(key) == 2:
+            i, j = key
+            if not (0 <= i < len(self.rows) and 0 <= j < len(self.cols)):
+                raise IndexError(f"Jacobian entry {key} outside {self.shape}")
+            return self.rows[i].diff(self.cols[j])
+        return list(self)[key]
+
+
 class WBlock:
     """stand-in for cpp.BasicBlock (its CSE / simplify / ccode pipeline is the temporaries protocol's business, fv.tmprules): one statement per
     (target, expression), the expression printed as it stands after the generator's substitution"""
@@ -389,7 +425,7 @@ def real_generator(v: Valuation, w: "Witness"):
     m = WModel(v)
     holder = {}
     natives = {"BasicBlock": WBlock, "Symbol": WSym, "diff": (lambda a, b, *r: a.diff(b)), "common": _WCommonProxy(lambda: holder.get("ev")), "sympy": None,
-               "ccode": (lambda e, *a, **k: _cprint(e))}
+               "ccode": (lambda e, *a, **k: _cprint(e)), "Matrix": WMatrix}
     ev = w.evaluator(natives=natives)
     holder["ev"] = ev
     cfg_node = ev.classes.get("cpp", {}).get("Config")
